@@ -386,5 +386,9 @@ def run(rep: Report) -> None:
     check_comparisons(rep, prog, resolver, "R06.2")
     rep.assume("the planner follows the (unique) simple path between two temperature units; comparisons across scales "
                "go through in_unit (C06 R06.2)")
+    from .c07 import effect_free_asserts
+    rep.rule("R07.9", "no assert in the package does part of a definition or a conversion (python -O would drop it: a scale registered inside an "
+             "assert has no zero point in optimised mode) - shared with C07", floor=1)
+    effect_free_asserts(rep, prog, resolver, "R07.9")
     rep.not_decided.append("floating-point rounding of round trips")
     rep.trust("E5 declaration model; mypy 2.3.1 expression types (translate analysis)")
